@@ -571,6 +571,16 @@ func CurrentTask() int {
 	return cur.cur.id
 }
 
+// TaskSteps returns the number of scheduling points the running task has passed (its own logical time).
+//
+//go:norace
+func TaskSteps() int64 {
+	if !active {
+		return stepTotal
+	}
+	return cur.cur.steps
+}
+
 // GlobalStep returns the scheduler's step counter of the current run.
 //
 //go:norace
